@@ -35,7 +35,7 @@ def gz(n):
 
 
 CMP = {ast.Is: 'CIs', ast.IsNot: 'CIsNot', ast.Eq: 'CEq', ast.NotEq: 'CNe', ast.Lt: 'CLt', ast.LtE: 'CLe',
-       ast.Gt: 'CGt', ast.GtE: 'CGe'}
+       ast.Gt: 'CGt', ast.GtE: 'CGe', ast.In: 'CIn', ast.NotIn: 'CNotIn'}
 BOP = {ast.Add: 'OAdd', ast.Sub: 'OSub'}
 
 
@@ -52,10 +52,11 @@ class Refs:
 
 
 class FuncTranslator:
-    def __init__(self, func, refs, self_name='self'):
+    def __init__(self, func, refs, self_name='self', prims=()):
         self.func = func
         self.refs = refs
         self.self_name = self_name
+        self.prims = set(prims)   # qualified names of library functions translated to XPrim
         src = textwrap.dedent(inspect.getsource(func))
         tree = ast.parse(src)
         fd = tree.body[0]
@@ -108,6 +109,18 @@ class FuncTranslator:
             return getattr(builtins, name)
         raise Untranslatable(f'unresolved name {name}')
 
+    def ident_of(self, name, dotted):
+        obj = self.resolve_free(name)
+        for a in dotted.split('.')[1:]:
+            obj = getattr(obj, a)
+        mod = getattr(obj, '__module__', None)
+        qn = getattr(obj, '__qualname__', None) or getattr(obj, '__name__', None)
+        if inspect.ismodule(obj):
+            return obj.__name__
+        if mod and qn:
+            return f'{mod}.{qn}'
+        return dotted
+
     def free_name(self, name, dotted):
         base = self.resolve_free(name)
         obj = base
@@ -151,14 +164,38 @@ class FuncTranslator:
                 return self.free_name(d.split('.')[0], d)
             return f'(XAttr {self.expr(e.value)} {gstr(e.attr)})'
         if isinstance(e, ast.Call):
+            kwnames = [k.arg for k in e.keywords]
+            if None in kwnames:
+                raise Untranslatable('**kwargs')
+            kwsuffix = (':' + ','.join(kwnames)) if kwnames else ''
+            kwargs = [self.expr(k.value) for k in e.keywords]
+            # a library function the caller declared as primitive
+            d = self.dotted(e.func) if isinstance(e.func, (ast.Attribute, ast.Name)) else None
+            if isinstance(e.func, ast.Name) and e.func.id in self.locals:
+                d = None
+            if d is not None:
+                try:
+                    ident = self.ident_of(d.split('.')[0], d)
+                except (Untranslatable, AttributeError):
+                    ident = None
+                if ident in self.prims:
+                    if any(isinstance(a, ast.Starred) for a in e.args):
+                        raise Untranslatable('*args to a primitive')
+                    return f'(XPrim {gstr(ident + kwsuffix)} {glist([self.expr(a) for a in e.args] + kwargs)})'
+            if isinstance(e.func, ast.Attribute) and self.dotted(e.func) is None \
+                    and not any(isinstance(a, ast.Starred) for a in e.args):
+                try:
+                    tgt = self.target(e.func.value)
+                except Untranslatable:
+                    tgt = None
+                if tgt is not None and not (isinstance(e.func.value, ast.Name) and e.func.value.id == self.self_name):
+                    return (f'(XMethod {tgt} {gstr(e.func.attr + kwsuffix)} '
+                            f'{glist([self.expr(a) for a in e.args] + kwargs)})')
             if e.keywords:
                 raise Untranslatable('keyword arguments')
             if isinstance(e.func, ast.Name) and e.func.id == 'len' and e.func.id not in self.locals \
                     and self.resolve_free('len') is len and len(e.args) == 1:
                 return f'(XLen {self.expr(e.args[0])})'
-            if isinstance(e.func, ast.Attribute) and e.func.attr == 'pop' and len(e.args) == 1 \
-                    and self.dotted(e.func) is None:
-                return f'(XPop {self.target(e.func.value)} {self.expr(e.args[0])})'
             args, star = [], None
             for i, a in enumerate(e.args):
                 if isinstance(a, ast.Starred):
@@ -188,13 +225,21 @@ class FuncTranslator:
             lo = None if sl.lower is None else self.expr(sl.lower)
             hi = None if sl.upper is None else self.expr(sl.upper)
             return f'(XSlice {self.expr(e.value)} {gopt(lo)} {gopt(hi)})'
-        if isinstance(e, ast.ListComp):
+        if isinstance(e, (ast.ListComp, ast.GeneratorExp)):
+            # a generator expression is translated as the list of its items (only admitted where it is consumed
+            # once, in order: as argument of a primitive or as the value of a name iterated later)
             if len(e.generators) != 1:
                 raise Untranslatable('nested comprehension')
             g = e.generators[0]
-            if g.ifs or g.is_async or not isinstance(g.target, ast.Name):
-                raise Untranslatable('comprehension with condition / pattern')
-            return f'(XListComp {self.expr(e.elt)} {gstr(g.target.id)} {self.expr(g.iter)})'
+            if len(g.ifs) > 1 or g.is_async or not isinstance(g.target, ast.Name):
+                raise Untranslatable('comprehension with several conditions / pattern')
+            self.locals.add(g.target.id)
+            cond = gopt(self.expr(g.ifs[0]) if g.ifs else None)
+            return f'(XListComp {self.expr(e.elt)} {gstr(g.target.id)} {self.expr(g.iter)} {cond})'
+        if isinstance(e, ast.Tuple):
+            return f'(XTuple {glist([self.expr(x) for x in e.elts])})'
+        if isinstance(e, ast.Subscript) and not isinstance(e.slice, ast.Slice):
+            return f'(XIndex {self.expr(e.value)} {self.expr(e.slice)})'
         if isinstance(e, ast.BoolOp):
             return (f'(XBoolOp {"true" if isinstance(e.op, ast.And) else "false"} '
                     f'{glist([self.expr(x) for x in e.values])})')
@@ -219,11 +264,19 @@ class FuncTranslator:
         if isinstance(s, ast.Assign):
             if len(s.targets) != 1:
                 raise Untranslatable('chained assignment')
+            if isinstance(s.targets[0], ast.Tuple):
+                return f'(SUnpack {glist([self.target(t) for t in s.targets[0].elts])} {self.expr(s.value)})'
             return f'(SAssign {self.target(s.targets[0])} {self.expr(s.value)})'
         if isinstance(s, ast.AugAssign) and type(s.op) in BOP:
             return f'(SAug {self.target(s.target)} {BOP[type(s.op)]} {self.expr(s.value)})'
         if isinstance(s, ast.If):
             return f'(SIf {self.expr(s.test)} {self.block(s.body)} {self.block(s.orelse)})'
+        if isinstance(s, ast.For) and isinstance(s.target, ast.Tuple) and not s.orelse \
+                and all(isinstance(t, ast.Name) for t in s.target.elts):
+            return (f'(SForUnpack {glist([gstr(t.id) for t in s.target.elts])} {self.expr(s.iter)} '
+                    f'{self.block(s.body)})')
+        if isinstance(s, ast.Expr) and isinstance(s.value, ast.Yield) and s.value.value is not None:
+            return f'(SYield {self.expr(s.value.value)})'
         if isinstance(s, ast.For):
             if s.orelse or not isinstance(s.target, ast.Name):
                 raise Untranslatable('for-else / pattern target')
@@ -241,7 +294,9 @@ class FuncTranslator:
             # defaults are recorded separately: the caller of call_method passes every argument
             pass
         body = self.block(self.fd.body)
-        return ('{| f_params := ' + glist([gstr(p) for p in self.params]) + ';\n     f_body := ' + body + ' |}',
+        gen = any(isinstance(n, (ast.Yield, ast.YieldFrom)) for n in ast.walk(self.fd))
+        return ('{| f_params := ' + glist([gstr(p) for p in self.params]) + ';\n     f_body := ' + body +
+                ';\n     f_gen := ' + ('true' if gen else 'false') + ' |}',
                 [self.const_value(d) for d in self.defaults])
 
     def const_value(self, d):
@@ -275,13 +330,13 @@ def render(defs, refs):
     return ''.join(out)
 
 
-def translate_all(spec):
+def translate_all(spec, prims=()):
     """spec: list of (coq_name, function object, origin text). Returns (text, info)."""
     refs = Refs()
     defs = []
     info = {}
     for name, fn, origin in spec:
-        tr = FuncTranslator(fn, refs)
+        tr = FuncTranslator(fn, refs, prims=prims)
         term, defaults = tr.translate()
         defs.append((name, origin, term, defaults))
         info[name] = {'origin': origin, 'lines': len(inspect.getsource(fn).splitlines())}
